@@ -462,6 +462,10 @@ class StepDomain(epick.PickDomain):
             k0 = kids[0]
             if isinstance(k0, Edge) and k0.node[0] == "T" and getattr(k0.node[1], "short", "") == "Empty":
                 raise Panic("a node with an empty hi edge is created without the zero-suppression rule (not reduced)")
+            if isinstance(k0, Edge) and k0.node[0] == "OP":
+                t = self.node_of(k0)
+                if isinstance(t, Enum) and t.path == NODE_TERMINAL and getattr(t.args[0], "short", "") == "Empty":
+                    raise Panic("a node whose hi edge %s is the empty family is created without the zero-suppression rule (not reduced)" % lab(k0))
         elif len(set(map(repr, kids))) == 1:
             raise Panic("a node with equal children is created without the reduction rule (not reduced)")
         return Edge(("MK", node[1], kids), self.default_tag())
@@ -482,6 +486,24 @@ class StepDomain(epick.PickDomain):
                 sn.opaque_of = nm
                 self.lazy[nm] = sn
             return Enum(NODE_INNER, [self.lazy[nm]])
+        if isinstance(edge, Edge) and edge.node[0] == "OP" and self.kind is tables.ZBDD and getattr(self.spec, "always_levels", None) \
+                and _closed(edge):
+            # the result of a recursive call on atom-free operands is a definite family: by canonicity it is the Empty /
+            # Base terminal exactly when it denotes the empty family / the family {{}} (otherwise an inner node)
+            lv = sorted(self.spec.always_levels)
+            try:
+                vals = []
+                for bs in itertools.product((0, 1), repeat=len(lv)):
+                    val = {"$levels": lv}
+                    val.update({("v", l): b for l, b in zip(lv, bs)})
+                    vals.append((bs, den(self.spec, edge, val)))
+            except Unrecognised:
+                vals = None
+            if vals is not None:
+                if not any(v for _, v in vals):
+                    return Enum(NODE_TERMINAL, [Enum(tables.ZBDD.terminal_enum + "::Empty")])
+                if all(bool(v) == (not any(bs)) for bs, v in vals):
+                    return Enum(NODE_TERMINAL, [Enum(tables.ZBDD.terminal_enum + "::Base")])
         if isinstance(edge, Edge) and edge.node[0] in ("OP", "MK"):
             return Enum(NODE_INNER, [Opaque("node of " + lab(edge))])
         return super().node_of(edge)
@@ -738,6 +760,26 @@ def atoms_of(ops):
         if isinstance(o, Edge):
             walk(o)
     return out
+
+
+def _closed(e):
+    """no opaque atom anywhere in the (possibly built / computed) edge"""
+    if isinstance(e, (list, tuple)) and not isinstance(e, Edge):
+        return all(_closed(x) for x in e if isinstance(x, (Edge, list, tuple)))
+    if not isinstance(e, Edge):
+        return True
+    n = e.node
+    if n[0] == "A":
+        return False
+    if n[0] == "T":
+        return not (isinstance(n[1], tuple) and n[1] and n[1][0] == "sym")
+    if n[0] == "S":
+        return not getattr(n[1], "opaque_of", None) and all(_closed(k) for k in n[1].children)
+    if n[0] == "MK":
+        return all(_closed(k) for k in n[2])
+    if n[0] == "OP":
+        return all(_closed(k) for k in n[2]) and (len(n) < 4 or _closed(n[3]))
+    return n[0] == "TAUT"
 
 
 def valuations(spec, ops, names, levels):
